@@ -407,3 +407,92 @@ def _mk_buffered(kind):
 for _kind in ("ram", "file"):
     _n, _f = _mk_buffered(_kind)
     globals()[_n] = _f
+
+
+# ------------------------------------------------------------------ H4: the lock across fork()
+def run_fork(how, n_docs, child_exits_first):
+    """A process holding the write lock forks (the child inherits the lock's file descriptor and stays alive);
+    when the writer finishes (commit/cancel), the lock must be free: a new writer in the parent, and in a
+    *third* process, can be opened, and while the writer is open no other process can take the lock."""
+    import os
+    import shutil
+    import tempfile
+    from whoosh.filedb.filestore import FileStorage
+    from whoosh.index import LockError
+    random.seed(3)
+    d = tempfile.mkdtemp(prefix="vkc04-")
+    try:
+        st = FileStorage(d)
+        ix = st.create_index(base_schema())
+        w = ix.writer()
+        for i in range(n_docs):
+            w.add_document(k=u"k%d" % i, t=u"alfa", n=i)
+        r1, w1 = os.pipe()
+        r2, w2 = os.pipe()
+        pid = os.fork()
+        if pid == 0:
+            # child: tries to take the lock while the parent's writer holds it, reports, then lingers holding the inherited descriptor
+            try:
+                os.close(r2)
+                try:
+                    st.open_index().writer(timeout=0.0).cancel()
+                    os.write(w2, b"T")          # took the lock although the parent holds it
+                except LockError:
+                    os.write(w2, b"L")
+                except BaseException:
+                    os.write(w2, b"E")
+                os.close(w1)
+                os.read(r1, 1)                  # wait until the parent is done
+            finally:
+                os._exit(0)
+        os.close(w2)
+        got = os.read(r2, 1)
+        os.close(r2)
+        err = None
+        if got != b"L":
+            err = "a second process %s while the first process' writer held the lock" % ("took the write lock" if got == b"T" else "failed unexpectedly (%r)" % got)
+        if child_exits_first:
+            os.close(w1)
+            os.close(r1)
+            os.waitpid(pid, 0)
+        if how == 0:
+            w.commit()
+        else:
+            w.cancel()
+        try:
+            w2_ = ix.writer(timeout=0.0)
+            w2_.add_document(k=u"later", t=u"bravo", n=99)
+            w2_.commit()
+        except LockError:
+            err = err or "after %s the write lock is still held (a forked child that inherited the descriptor is %s)" % (
+                "commit()" if how == 0 else "cancel()", "gone" if child_exits_first else "alive")
+        if not child_exits_first:
+            os.close(w1)
+            os.close(r1)
+            os.waitpid(pid, 0)
+        if err is None:
+            want = (n_docs if how == 0 else 0) + 1
+            if ix.refresh().doc_count() != want:
+                err = "after the fork scenario the index holds %d documents, expected %d" % (ix.refresh().doc_count(), want)
+        return err
+    finally:
+        shutil.rmtree(d, ignore_errors=True)
+
+
+@h(bounds="a FileStorage writer with 0..2 buffered documents forks; the child tries the lock (must fail), then either exits or stays alive holding the inherited "
+          "descriptor while the parent commits or cancels and opens the next writer (symbolic: commit/cancel, document count, child lifetime)",
+   funcs=["whoosh.util.filelock.FcntlLock.acquire", "whoosh.util.filelock.FcntlLock.release", "whoosh.index.FileIndex.writer", "whoosh.writing.SegmentWriter.commit"],
+   examples=[dict(how=0, n=1, first=False)], timeout=dict(quick=300, thorough=600),
+   stubs=["fork/flock are real OS calls executed outside tracing: one OS schedule per configuration"],
+   outside="more than two processes, lock files on network file systems, Windows (MsvcrtLock)")
+def c04_fork(how: int, n: int, first: bool) -> Optional[str]:
+    """
+    pre: 0 <= how <= 1 and 0 <= n <= 2
+    post: _ is None
+    """
+    with notrace():
+        hw = 0 if sym_true(lambda: how == 0) else 1
+        nn = 0 if sym_true(lambda: n == 0) else (1 if sym_true(lambda: n == 1) else 2)
+        r = run_fork(hw, nn, sym_true(lambda: first))
+    tick(True)
+    return r
